@@ -34,6 +34,19 @@ func NewTrieStore(root util.Uint256, mode TrieMode, backed storage.Store) *TrieS
 	}
 }
 
+// CheckRoot returns an error if the root node of the underlying trie can't be
+// retrieved from the storage, i.e. the state is not available (it was never
+// stored or was removed already). Get and Seek can't tell a missing node from a
+// missing key, they answer with "no items" in both cases.
+func (m *TrieStore) CheckRoot() error {
+	hn, ok := m.trie.root.(*HashNode)
+	if !ok || hn.hash.Equals(util.Uint256{}) { // Empty trie.
+		return nil
+	}
+	_, err := m.trie.getFromStore(hn.hash)
+	return err
+}
+
 // Get implements the Store interface. It can return [errors.ErrUnsupported]
 // for unsupported operations.
 func (m *TrieStore) Get(key []byte) ([]byte, error) {
